@@ -6,6 +6,11 @@
 pub proof fn lemma_priority_variants(p: Priority)
     ensures p is Low || p is Normal || p is High || p is Urgent, // OBL:C02.priority.four_levels
 {}
+// the event queue (async_priority_channel, a max-heap on the derived `Ord` of Priority: assumed) hands out the greatest pending priority first, so the
+// derived order itself (generated above from the real enum's variant order on every run) must put Urgent on top and Low at the bottom
+pub proof fn lemma_priority_order()
+    ensures prio_rank(Priority::Low) < prio_rank(Priority::Normal) && prio_rank(Priority::Normal) < prio_rank(Priority::High) && prio_rank(Priority::High) < prio_rank(Priority::Urgent), // OBL:C02+C01.priority.derived_order_is_low_normal_high_urgent
+{}
 //@ item throttle_collect
 //@ header
 #[verifier::exec_allows_no_decreases_clause]
